@@ -66,14 +66,17 @@ def T.odict (i : Nat) (kvs : Kids) : T := .node .odict i kvs
 structure Policy where
   recreated : Kind → Bool
   inplace : Kind → Bool
+  /-- `strip_meta` copies an EMPTY configuration too (since fix 3b44d63; before, `if cfg:` handed it back itself) -/
+  stripEmpty : Bool
 
 def lookupRow (s : String) : List (String × Bool × Bool) → Bool × Bool
   | [] => (false, false)
   | (n, r) :: rest => if n == s then r else lookupRow s rest
 
-def policyOfTable (tbl : List (String × Bool × Bool)) : Policy :=
+def policyOfTable (tbl : List (String × Bool × Bool)) (stripEmpty : Bool) : Policy :=
   { recreated := fun k => (lookupRow k.name tbl).1
-    inplace := fun k => (lookupRow k.name tbl).2 }
+    inplace := fun k => (lookupRow k.name tbl).2
+    stripEmpty := stripEmpty }
 
 /-- which operation copies its argument before doing anything else with it -/
 structure Sites where
@@ -86,6 +89,9 @@ structure Sites where
   parseObject : Bool
   parseObjectBase : Bool
   getDefaults : Bool
+  parseArgsNs : Bool      -- parse_args(namespace=…): handed to merge_config only
+  parseArgsArgs : Bool    -- parse_args(args=…): `args = list(args)` before it is stored / handed to argparse
+  saveCfg : Bool          -- save(cfg): dump(cfg) (single file) or cfg.clone() (multifile)
 
 def lookupSite (s : String) : List (String × Bool) → Bool
   | [] => false
@@ -100,9 +106,12 @@ def sitesOfTable (tbl : List (String × Bool)) : Sites :=
     instantiate := lookupSite "instantiate_classes.cfg" tbl
     parseObject := lookupSite "parse_object.cfg_obj" tbl
     parseObjectBase := lookupSite "parse_object.cfg_base" tbl
-    getDefaults := lookupSite "get_defaults.default" tbl }
+    getDefaults := lookupSite "get_defaults.default" tbl
+    parseArgsNs := lookupSite "parse_args.namespace" tbl
+    parseArgsArgs := lookupSite "parse_args.args" tbl
+    saveCfg := lookupSite "save.cfg" tbl }
 
-def Sites.allCopy : Sites := ⟨true, true, true, true, true, true, true, true, true⟩
+def Sites.allCopy : Sites := ⟨true, true, true, true, true, true, true, true, true, true, true, true⟩
 
 /-! ### identities -/
 
@@ -185,9 +194,10 @@ def isEmptyNode : T → Bool
   | .atom _ => false
   | .node _ _ kids => kids.isEmpty
 
-/-- `strip_meta(cfg)`: `if cfg: cfg = recreate_branches(cfg, skip_keys=meta_keys)` — an empty config is returned itself -/
+/-- `strip_meta(cfg)`: `recreate_branches(cfg, skip_keys=meta_keys)`; before fix 3b44d63 (`p.stripEmpty = false`)
+    an empty config was returned itself (`if cfg:`) -/
 def stripMeta (p : Policy) (mkeys : List String) (t : T) (k : Nat) : R T :=
-  if isEmptyNode t then ⟨t, k⟩ else recreate p mkeys t k
+  if isEmptyNode t && !p.stripEmpty then ⟨t, k⟩ else recreate p mkeys t k
 
 /-- copy if the site table says the operation copies, else hand the argument itself on -/
 def copyIf (b : Bool) (f : T → Nat → R T) (t : T) (k : Nat) : R T := if b then f t k else ⟨t, k⟩
@@ -414,10 +424,23 @@ def parseObject (p : Policy) (cs : Sites) (defaults : Kids) (base : Option T) (o
   let v := validate p cs mg.val mg.next
   ⟨mg.val, d1.writes ++ a.writes ++ mg.writes ++ v.writes, [], v.next⟩
 
-/-- `instantiate_classes(cfg)`: `strip_meta`, then every class_path spec is replaced by a fresh object, children first -/
+/-- an assignment `cfg[dest] = …` into the root of the working configuration -/
+def rootWrite (p : Policy) : T → List Nat
+  | .atom _ => []
+  | .node kd i _ => if p.inplace kd then [i] else []
+
+/-- what `strip_meta(cfg)` still shares with `cfg`: what `recreate_branches` shares; an EMPTY configuration that is
+    returned itself (`p.stripEmpty = false`, the code before fix 3b44d63) shares everything writable of it (the root) -/
+def stripShared (p : Policy) (t : T) : List Nat :=
+  if isEmptyNode t && !p.stripEmpty then mutIds p t else sharedMut p t
+
+/-- `instantiate_classes(cfg)`: `strip_meta`; class groups and instantiation links assign their objects / values
+    into the root of the working configuration (`cfg[group.dest] = obj`, worst case: always); then every class_path
+    spec is replaced by a fresh object, children first -/
 def instantiate (p : Policy) (cs : Sites) (mkeys : List String) (t : T) (k : Nat) : M T :=
   let c := copyIf cs.instantiate (stripMeta p mkeys) t k
-  instMut p c.val c.next
+  let m := instMut p c.val c.next
+  ⟨m.val, rootWrite p c.val ++ m.writes, m.objs, m.next⟩
 
 /-! ### brackets: context managers that set a variable for the duration of a body -/
 
